@@ -203,8 +203,9 @@ static void check_ring_dump(const char *why)
 	vp_outcome_u64((uint64_t)n + 1000);
 }
 
-static unsigned char *base[4]; static size_t base_len[4]; static int nbase;
-static size_t rec_off[4][16]; static int nrec_off[4];      /* offsets of record fields in each base dump */
+static unsigned char *base[5]; static size_t base_len[5]; static int nbase;
+static size_t msg_off[5]; static uint32_t msg_len[5];   /* oldest record of each base dump: where its encoded message starts, how long it is */
+static size_t rec_off[5][16]; static int nrec_off[5];      /* offsets of record fields in each base dump */
 
 static unsigned char *slurp(const char *f, size_t *len)
 {
@@ -233,10 +234,10 @@ static void setup(void)
 	if (mode != 0) return;
 	capturing = 1;
 	/* base dumps: 1 record, 3 records, many records (wrapped) */
-	for (cfg = 0; cfg < 3; cfg++) {
-		int i, n = cfg == 0 ? 1 : cfg == 1 ? 3 : 14;
+	for (cfg = 0; cfg < 4; cfg++) {
+		int i, n = cfg == 0 ? 1 : cfg == 1 ? 3 : cfg == 2 ? 14 : 1;
 		bb_start(2048);
-		for (i = 0; i < n; i++) bb_log(cfg == 2 ? i % 3 : i % 2);
+		for (i = 0; i < n; i++) bb_log(cfg == 3 ? 2 : cfg == 2 ? i % 3 : i % 2);      /* the fourth dump holds one 400-character record */
 		unlink(dumpf);
 		if (qb_log_blackbox_write_to_file(dumpf) < 0) vp_broken("write_to_file failed");
 		base[nbase] = slurp(dumpf, &base_len[nbase]);
@@ -261,6 +262,7 @@ static void setup(void)
 					rec_off[nbase][k++] = o + 21 + fnlen + 8;
 					rec_off[nbase][k++] = o + 21 + fnlen + 16;   /* message length */
 					rec_off[nbase][k++] = o + 21 + fnlen + 20;   /* message: format text */
+					msg_off[nbase] = o + 21 + fnlen + 20; memcpy(&msg_len[nbase], base[nbase] + o + 21 + fnlen + 16, 4);
 				}
 				nrec_off[nbase] = (int)k;
 			}
@@ -276,11 +278,11 @@ static const char *small_files[] = { "", "x", "\0\0\0\0", "\xff\xff\xff\xff\xff\
 
 static void run_damage(void)
 {
-	int b = vp_choose(nbase, "base dump"), kind = vp_choose(byteflip ? 6 : 5, "damage kind"), rc;
+	int b = vp_choose(nbase, "base dump"), kind = vp_choose(byteflip ? 7 : 6, "damage kind"), rc;
 	size_t len = base_len[b];
 	unsigned char *f = malloc(len + 64);
 	char before[4096], after[4096];
-	static const char *kn[] = { "truncate", "header word", "two header words", "record field", "arbitrary small file", "byte flip" };
+	static const char *kn[] = { "truncate", "header word", "two header words", "record field", "arbitrary small file", "crafted format", "byte flip" };
 	memcpy(f, base[b], len);
 	if (kind == 0) {
 		/* every truncation length: all below 256, then every 16th byte plus the last 64 */
@@ -326,6 +328,21 @@ static void run_damage(void)
 		else if (c == 4) len = 20;                    /* marker block only */
 		else if (c == 5) len = 40;                    /* both headers, no data */
 		else { memset(f, 0xff, len); }
+	} else if (kind == 5) {
+		/* a record whose stored format is not one a log call would have produced: repeated length modifiers, flags,
+		   stars, huge widths, conversions that expand far beyond the line length, more conversions than arguments */
+		char fm[400]; int c = vp_choose(14, "crafted format"), rep = 40, i, l = 0;
+		static const char mods[] = "lzjthL-0+ #";
+		if (msg_len[b] < 64 || msg_off[b] + msg_len[b] > len) { free(f); vp_pruned(); return; }
+		if (c < 11) { fm[l++] = 'x'; fm[l++] = '%'; for (i = 0; i < rep; i++) fm[l++] = mods[c]; fm[l++] = 'd'; fm[l] = 0; }
+		else if (c == 11) snprintf(fm, sizeof fm, "%%-500d%%-500d");
+		else if (c == 12) { for (i = 0; i < 20; i++) { fm[l++] = '%'; fm[l++] = '*'; fm[l++] = '.'; fm[l++] = '*'; fm[l++] = 's'; } fm[l] = 0; }
+		else { fm[l++] = '%'; for (i = 0; i < 30; i++) fm[l++] = '9'; fm[l++] = '.'; for (i = 0; i < 30; i++) fm[l++] = '9'; fm[l++] = 'f'; fm[l] = 0; }
+		l = (int)strlen(fm);
+		if ((uint32_t)l + 1 > msg_len[b]) l = (int)msg_len[b] - 1;
+		memset(f + msg_off[b], 0, msg_len[b]);
+		memcpy(f + msg_off[b], fm, (size_t)l);
+		vp_log("format of the oldest record := '%.60s%s'", fm, l > 60 ? "..." : "");
 	} else {
 		size_t pos = (size_t)vp_choose((int)len, "byte");
 		/* headers and the first records byte by byte, the rest is covered by the field damage */
